@@ -463,7 +463,11 @@ func (s Spec) String(f *ssa.Function) string {
 }
 
 // Eval folds a value under the specialisation: parameters, !x, x==c / x!=c on constants.
-func (s Spec) Eval(v ssa.Value) (constant.Value, bool) {
+func (s Spec) Eval(v ssa.Value) (constant.Value, bool) { return s.eval(v, 0) }
+
+// eval: d is the nesting depth of helper-result evaluations (bounded in evalCallResult; no shared counter: rule sets
+// run concurrently in the controls battery).
+func (s Spec) eval(v ssa.Value, d int) (constant.Value, bool) {
 	switch x := v.(type) {
 	case *ssa.Const:
 		if x.Value != nil {
@@ -477,21 +481,21 @@ func (s Spec) Eval(v ssa.Value) (constant.Value, bool) {
 		// a result of an in-package helper that is the same constant on every return reachable under the helper's own
 		// specialisation by the (constant or specialised) arguments of this call: 'newLen, copyOver := m.nextTable(t, hint)'
 		if call, ok := x.Tuple.(*ssa.Call); ok {
-			if c, ok := s.evalCallResult(call, x.Index); ok {
+			if c, ok := s.evalCallResult(call, x.Index, d); ok {
 				return c, true
 			}
 		}
 	case *ssa.Call:
 		if x.Type() != nil {
 			if _, isTuple := x.Type().(*types.Tuple); !isTuple {
-				if c, ok := s.evalCallResult(x, 0); ok {
+				if c, ok := s.evalCallResult(x, 0, d); ok {
 					return c, true
 				}
 			}
 		}
 	case *ssa.UnOp:
 		if x.Op == token.NOT {
-			if c, ok := s.Eval(x.X); ok && c.Kind() == constant.Bool {
+			if c, ok := s.eval(x.X, d); ok && c.Kind() == constant.Bool {
 				return constant.MakeBool(!constant.BoolVal(c)), true
 			}
 		}
@@ -504,8 +508,8 @@ func (s Spec) Eval(v ssa.Value) (constant.Value, bool) {
 				}
 			}
 		}
-		a, ok1 := s.Eval(x.X)
-		b, ok2 := s.Eval(x.Y)
+		a, ok1 := s.eval(x.X, d)
+		b, ok2 := s.eval(x.Y, d)
 		if ok1 && ok2 {
 			switch x.Op {
 			case token.EQL, token.NEQ, token.LSS, token.LEQ, token.GTR, token.GEQ:
@@ -546,12 +550,14 @@ func (s Spec) Eval(v ssa.Value) (constant.Value, bool) {
 }
 
 // Succs returns the successors of b that are feasible under the specialisation.
-func (s Spec) Succs(b *ssa.BasicBlock) []*ssa.BasicBlock {
+func (s Spec) Succs(b *ssa.BasicBlock) []*ssa.BasicBlock { return s.succs(b, 0) }
+
+func (s Spec) succs(b *ssa.BasicBlock, d int) []*ssa.BasicBlock {
 	if len(b.Instrs) == 0 {
 		return b.Succs
 	}
 	if iff, ok := b.Instrs[len(b.Instrs)-1].(*ssa.If); ok {
-		if c, ok := s.Eval(iff.Cond); ok && c.Kind() == constant.Bool {
+		if c, ok := s.eval(iff.Cond, d); ok && c.Kind() == constant.Bool {
 			if constant.BoolVal(c) {
 				return b.Succs[:1]
 			}
@@ -562,7 +568,9 @@ func (s Spec) Succs(b *ssa.BasicBlock) []*ssa.BasicBlock {
 }
 
 // Reachable returns the set of blocks reachable from entry under the specialisation.
-func (s Spec) Reachable(f *ssa.Function) map[*ssa.BasicBlock]bool {
+func (s Spec) Reachable(f *ssa.Function) map[*ssa.BasicBlock]bool { return s.reachable(f, 0) }
+
+func (s Spec) reachable(f *ssa.Function, d int) map[*ssa.BasicBlock]bool {
 	seen := map[*ssa.BasicBlock]bool{}
 	var walk func(b *ssa.BasicBlock)
 	walk = func(b *ssa.BasicBlock) {
@@ -570,7 +578,7 @@ func (s Spec) Reachable(f *ssa.Function) map[*ssa.BasicBlock]bool {
 			return
 		}
 		seen[b] = true
-		for _, n := range s.Succs(b) {
+		for _, n := range s.succs(b, d) {
 			walk(n)
 		}
 	}
@@ -630,13 +638,17 @@ func NamedOf(t types.Type) string { return namedOf(t) }
 // SpecFor derives the callee's specialisation at a call site: constant arguments, and arguments that are parameters
 // bound by the caller's specialisation.
 func (s Spec) SpecFor(call ssa.CallInstruction, cal *ssa.Function) Spec {
+	return s.specFor(call, cal, 0)
+}
+
+func (s Spec) specFor(call ssa.CallInstruction, cal *ssa.Function, d int) Spec {
 	sp := Spec{}
 	args := call.Common().Args
 	for i, a := range args {
 		if i >= len(cal.Params) {
 			break
 		}
-		if c, ok := s.Eval(a); ok {
+		if c, ok := s.eval(a, d); ok {
 			if _, isConst := a.(*ssa.Const); isConst || c.Kind() == constant.Bool || c.Kind() == constant.Int {
 				sp[cal.Params[i]] = c
 			}
@@ -645,20 +657,16 @@ func (s Spec) SpecFor(call ssa.CallInstruction, cal *ssa.Function) Spec {
 	return sp
 }
 
-var evalDepth int
-
-func (s Spec) evalCallResult(call *ssa.Call, idx int) (constant.Value, bool) {
+func (s Spec) evalCallResult(call *ssa.Call, idx int, d int) (constant.Value, bool) {
 	cal := Callee(call)
-	if cal == nil || cal.Blocks == nil || evalDepth > 2 {
+	if cal == nil || cal.Blocks == nil || d > 2 {
 		return nil, false
 	}
-	evalDepth++
-	defer func() { evalDepth-- }()
-	sp := s.SpecFor(call, cal)
+	sp := s.specFor(call, cal, d+1)
 	if len(sp) == 0 {
 		return nil, false
 	}
-	reach := sp.Reachable(cal)
+	reach := sp.reachable(cal, d+1)
 	var val constant.Value
 	n := 0
 	same := true
@@ -671,7 +679,7 @@ func (s Spec) evalCallResult(call *ssa.Call, idx int) (constant.Value, bool) {
 			continue
 		}
 		n++
-		c, ok := sp.Eval(ret.Results[idx])
+		c, ok := sp.eval(ret.Results[idx], d+1)
 		if !ok || (c.Kind() != constant.Bool && c.Kind() != constant.Int) {
 			same = false
 			continue
